@@ -107,6 +107,10 @@ def run(idx, rep, tier):
                 ok = shp == want
                 rep.decide(ok, "diag-length", f"{construct}:{'k=0' if in_zero_branch else 'k!=0'}", f"builds a vector of length {nospace(c.args[0].elts[0])}" + ("" if ok else f"; required {want}"),
                            detail="" if ok else "length", locs=[idx.loc(fi.module, c)])
+        # ---- 3a. a rule for an n-ary composite must not handle a fixed number of parts without pinning that number
+        from sa.autorule import arity_coverage
+        for ok_, text_, node_ in arity_coverage(idx, rule):
+            rep.decide(ok_, "part-coverage", construct, text_, detail="" if ok_ else "fixed-arity", locs=[idx.loc(fi.module, node_)])
         # ---- 3. rule algebra
         rec = [c for c in df.calls(fi.node) if isinstance(c.func, ast.Name) and c.func.id == "diag"]
         if rec:
@@ -162,7 +166,10 @@ def run(idx, rep, tier):
         kinds = sorted(rule.types[0])
         txt = nospace(fi.node)
         if kinds == ["LinearOperator"]:
-            sq = any(isinstance(st, ast.Assert) and nospace(st.test).replace("[-2]", "[0]").replace("[-1]", "[1]") in (f"{a}.shape[0]=={a}.shape[1]", f"{a}.shape[1]=={a}.shape[0]") for st in fi.node.body)
+            # an assert / raise guard whose test says rows == columns (entries of A.shape, also through locals: `rows, cols = A.shape`)
+            from props.C16 import _shape_rel
+            sq = any((isinstance(st, ast.Assert) and _shape_rel(st.test, a, fi.node) == "r==c") or
+                     (isinstance(st, ast.If) and st.body and isinstance(st.body[0], ast.Raise) and _shape_rel(st.test, a, fi.node) == "r!=c") for st in df.body_nodes(fi.node))
             calls = [c for c in df.calls(fi.node) if isinstance(c.func, ast.Name) and c.func.id == "diag"]
             main = bool(calls) and len(calls[0].args) >= 3 and ast.unparse(calls[0].args[0]) == a and ast.unparse(calls[0].args[1]) == "0" and ast.unparse(calls[0].args[2]) == algp
             summed = ".sum()" in txt or "sum(" in txt
